@@ -93,6 +93,8 @@ def run(out: Outcome, drv, frontends=None):
                 "direct calls on the rows selected by IoosQc.specMask; non-trivial = a window that excludes at least one row")
     rng = gen.rng_for(out.seed, "C05")
     for it in range(n):
+        if tab_ok := True:
+            run_qcconfig(out, drv, gen.rng_for(out.seed, "C05", "qcconfig", it), maxn)
         tab = sc.gen_table(rng, maxn)
         ctxs = sc.gen_config(rng, tab)
         cfg = sc.config_dict(ctxs)
@@ -102,7 +104,10 @@ def run(out: Outcome, drv, frontends=None):
         exp = expected_records(tab, ctxs, masks)
         exp_probe = sorted(json.dumps(p, sort_keys=True) for r in exp if r["probe"] for p in r["probe"])
         exp_keys = sorted(key(r) for r in exp)
-        for fe in frontends:
+        fes = list(frontends)
+        if tab["n"] > 0 and (out.tier == "thorough" or it % 5 == 0):
+            fes += ["netcdf_file", "xarray_file"]
+        for fe in fes:
             case = {"frontend": fe, "table": tab, "contexts": ctxs}
             nontriv = any(not all(m) for m in masks)
             try:
@@ -125,6 +130,51 @@ def run(out: Outcome, drv, frontends=None):
                               {"case": jsonable(case), "observed_only": diff_o, "expected_only": diff_e,
                                "probe_observed": obs_probe[:3], "probe_expected": exp_probe[:3]},
                               known_id=classify(fe, tab, ctxs, masks, None))
+
+
+def run_qcconfig(out, drv, rng, maxn):
+    """The fifth front end: the single-stream QcConfig.run (dict form, UNKNOWN on uncovered rows)."""
+    import warnings
+
+    from ioos_qc.config import QcConfig
+
+    tab = sc.gen_table(rng, maxn, streams=("_stream",))
+    ctxs = sc.gen_config(rng, tab, tests=[t for t in sc.usable_tests(tab) if t != "probe"])
+    cfg = sc.config_dict(ctxs)
+    wins = [[c["window"][0], c["window"][1]] for c in ctxs]
+    a, = drv.run([{"kind": "window", "t": tab["t"], "windows": wins}])
+    masks = a["spec"]
+    exp = expected_records(tab, ctxs, masks)
+    want = {}
+    for r in exp:
+        for t in r["tests"]:
+            arr = want.setdefault((t["package"], t["test"]), [2] * tab["n"])
+            pos = [i for i, m in enumerate(r["mask"]) if m]
+            for i, f in zip(pos, t["flags"]):
+                arr[i] = f
+    case = {"frontend": "qcconfig", "table": tab, "contexts": ctxs}
+    nontriv = any(not all(m) for m in masks)
+    out.record(case, nontriv, ["fe:qcconfig", f"ctx:{len(ctxs)}"])
+    kw = {"inp": sc.fl(tab["cols"]["_stream"]), "tinp": sc.times_ns(tab)}
+    if "z" in tab["axes"]:
+        kw["zinp"] = sc.fl(tab["axes"]["z"])
+    if "lat" in tab["axes"]:
+        kw["lat"] = sc.fl(tab["axes"]["lat"])
+        kw["lon"] = sc.fl(tab["axes"]["lon"])
+    try:
+        with warnings.catch_warnings():
+            warnings.simplefilter("ignore")
+            with np.errstate(all="ignore"):
+                res = QcConfig(cfg).run(**kw)
+    except Exception as e:  # noqa: BLE001
+        if want:
+            out.violation(f"{WHAT}: QcConfig.run raised {type(e).__name__}: {e}", {"case": jsonable(case)})
+        return
+    got = {(pkg, tst): [int(v) for v in np.ma.getdata(fl).reshape(-1).tolist()] for pkg, tests in res.items() for tst, fl in tests.items()}
+    if got != want:
+        out.violation(f"{WHAT}: QcConfig.run results differ from direct calls on the window rows",
+                      {"case": jsonable(case), "observed": {f"{k[0]}.{k[1]}": v for k, v in got.items()},
+                       "expected": {f"{k[0]}.{k[1]}": v for k, v in want.items()}})
 
 
 def classify(fe, tab, ctxs, masks, err):
